@@ -1253,6 +1253,19 @@ void amount_t::parse_conversion(const string& larger_str,
   larger.parse(larger_str, PARSE_NO_REDUCE);
   smaller.parse(smaller_str, PARSE_NO_REDUCE);
 
+  // The chain of ever smaller units below `smaller' must not lead back to
+  // `larger', or reducing an amount would never end
+  if (larger.has_commodity())
+    for (const commodity_t * comm = &smaller.commodity(); ; ) {
+      if (*comm == larger.commodity())
+        throw_(amount_error,
+               _f("Commodity %1% cannot be converted into itself")
+               % larger.commodity().symbol());
+      if (! comm->smaller())
+        break;
+      comm = &comm->smaller()->commodity();
+    }
+
   larger *= smaller.number();
 
   if (larger.commodity()) {
